@@ -31,7 +31,9 @@ pub enum HOp {
     Ann { t: u8, ev: u8, left: u64, want: Option<u64>, port: u16, pid: u8, style: u8, seg: Vec<u16>, hdr: u8 },
     Scr { ts: Vec<u8>, seg: Vec<u16>, hdr: u8 },
     /// kind 0: garbage line; 1: request larger than the request buffer; 2: announce with a 19-byte info hash;
-    /// 3: unknown path; 4: missing port; 5: POST; 6: binary junk; 7: request without the forwarded header (proxy mode)
+    /// 3: unknown path; 4: missing port; 5: POST; 6: binary junk; 7: request without the forwarded header (proxy mode);
+    /// 8: parameter without '=' before the others; 9: leading '&'; 10: several '=' in one parameter; 11: non-UTF-8 and
+    /// over-long identifiers; 12-15: a valid announce with characters inserted / deleted / replaced at positions drawn from `r`
     Bad { kind: u8, r: u64 },
     /// client resets the connection `after` bytes into the next request (mid-request reset)
     ResetMid { after: u16 },
@@ -380,7 +382,34 @@ fn client_main(idx: usize, scn: Arc<Scn>, col: Arc<Mutex<Collected>>) {
             HOp::Scr { ts, seg, hdr } => (enc_scrape(ts), *hdr, seg.clone(), Some(Req::Scr { ts: ts.clone(), fam })),
             HOp::Bad { kind, r } => {
                 let mut st = *r;
-                let t = match kind % 8 {
+                let valid = enc_announce(250, 1, 1, Some(5), 1000, 1, 0, other_ip); // a torrent no regular operation uses
+                let t = match kind % 16 {
+                    8 => valid.replacen("?", "?compact&", 1),
+                    9 => valid.replacen("?", "?&", 1),
+                    10 => valid.replacen("?", "?a=b=c&", 1).replacen("port=1000", "port=1=2==", 1),
+                    11 => valid.replacen("info_hash=", "info_hash=%FF%FE%80%81%C3%28", 1).replacen("peer_id=", &format!("peer_id={}", "%41".repeat(90)), 1),
+                    12..=15 => {
+                        let mut b = valid.clone().into_bytes();
+                        for _ in 0..(1 + crate::prng::splitmix(&mut st) % 4) {
+                            if b.len() < 40 {
+                                break;
+                            }
+                            let pos = (crate::prng::splitmix(&mut st) % (b.len() as u64 - 20)) as usize + 4;
+                            match crate::prng::splitmix(&mut st) % 4 {
+                                0 => b.insert(pos, b"=&%?"[(crate::prng::splitmix(&mut st) % 4) as usize]),
+                                1 => {
+                                    b.remove(pos);
+                                }
+                                2 => b[pos] = b"=&%# +"[(crate::prng::splitmix(&mut st) % 6) as usize],
+                                _ => b.truncate(pos.max(20)),
+                            }
+                        }
+                        let mut t = String::from_utf8_lossy(&b).to_string();
+                        if !t.ends_with("\r\n") {
+                            t.push_str(" HTTP/1.1\r\nHost: x\r\n");
+                        }
+                        t
+                    }
                     0 => "BLAH BLAH BLAH\r\n".to_string(),
                     1 => format!("GET /announce?info_hash={} HTTP/1.1\r\nX-Pad: {}\r\n", pct(&info_hash(1), false), "p".repeat(2100)),
                     2 => format!("GET /announce?info_hash={}&peer_id={}&port=1&uploaded=0&downloaded=0&left=1 HTTP/1.1\r\n", pct(&info_hash(1)[..19], false), pct(&peer_id(1), false)),
@@ -388,9 +417,10 @@ fn client_main(idx: usize, scn: Arc<Scn>, col: Arc<Mutex<Collected>>) {
                     4 => format!("GET /announce?info_hash={}&peer_id={}&uploaded=0&downloaded=0&left=1 HTTP/1.1\r\n", pct(&info_hash(1), false), pct(&peer_id(1), false)),
                     5 => "POST /announce HTTP/1.1\r\nContent-Length: 0\r\n".to_string(),
                     6 => (0..60).map(|_| (crate::prng::splitmix(&mut st) & 0x7f) as u8 as char).collect::<String>() + "\r\n",
-                    _ => enc_announce(1, 1, 1, None, 1, 1, 0, other_ip),
+                    _ => enc_announce(250, 1, 1, None, 1, 1, 0, other_ip),
                 };
-                (t, if kind % 8 == 7 { 255 } else { 0 }, vec![], None)
+                let _ = &valid;
+                (t, if kind % 16 == 7 { 255 } else { 0 }, vec![], None)
             }
             _ => unreachable!(),
         };
@@ -401,6 +431,8 @@ fn client_main(idx: usize, scn: Arc<Scn>, col: Arc<Mutex<Collected>>) {
         }
         full.push_str("\r\n");
         let bytes = full.into_bytes();
+        // a request that does not fit the 2048-byte request buffer is not an accepted request
+        let req = if bytes.len() > 2048 { None } else { req };
         let s = stream.as_mut().unwrap();
         // idle rule: the connection must still be usable unless it has been idle for max_connection_idle
         let idle_ok = last_reply_ns.map_or(true, |t| engine::now().saturating_sub(t) + 1_500_000_000 < scn.max_connection_idle as u64 * 1_000_000_000);
@@ -452,10 +484,8 @@ fn client_main(idx: usize, scn: Arc<Scn>, col: Arc<Mutex<Collected>>) {
             None => match &req {
                 None => {
                     // malformed request: the tracker may answer nothing, close, or (proxy header missing) die
-                    match s.read(65536, 1_500_000_000) {
-                        Ok(v) if !v.is_empty() => col.lock().unwrap().unexpected.push((idx, format!("{} bytes in reply to a malformed request", v.len()))),
-                        _ => {}
-                    }
+                    // (whether such a request is answered is not part of the property; a mutated request may even be valid)
+                    let _ = s.read(65536, 1_500_000_000);
                     stream = None;
                     buf.clear();
                     continue;
@@ -740,13 +770,13 @@ impl Harness for HttpSys {
                         let n = *r.pick(&[1usize, 1, 2, 3, 5]);
                         HOp::Scr { ts: (0..n).map(|_| r.below(n_torrents as u64 + 2) as u8).collect(), seg: seg(&mut r), hdr: r.below(16) as u8 }
                     }
-                    3 => HOp::Bad { kind: if c12 { r.below(8) as u8 } else { r.below(7) as u8 }, r: r.next_u64() },
+                    3 => HOp::Bad { kind: if c12 { r.below(16) as u8 } else { *r.pick(&[0u8, 1, 2, 3, 4, 5, 6, 8, 9, 10, 11, 12, 13]) }, r: r.next_u64() },
                     4 => HOp::ResetMid { after: r.below(200) as u16 },
                     _ => HOp::Close,
                 };
                 // the deliberate missing-header panic (Bad kind 7) only makes sense behind a proxy
                 if let HOp::Bad { kind, .. } = &op {
-                    if kind % 8 == 7 && !behind_proxy {
+                    if kind % 16 == 7 && !behind_proxy {
                         continue;
                     }
                 }
@@ -773,6 +803,7 @@ impl Harness for HttpSys {
                 script.push(HOp::Ann { t: 0, ev: 1, left: 1, want: Some(1), port: 1 + p as u16, pid: 1, style: 0, seg: vec![], hdr: 0 });
             }
             script.push(HOp::Ann { t: 0, ev: 1, left: 1, want: None, port: 60000, pid: 2, style: 0, seg: vec![], hdr: 0 });
+            script.push(HOp::Ann { t: 0, ev: 1, left: 1, want: Some(100000), port: 60002, pid: 2, style: 0, seg: vec![], hdr: 0 });
             let n_hashes = *r.pick(&[28usize, 57, 58, 60, 64]);
             script.push(HOp::Scr { ts: (0..n_hashes).map(|i| i as u8).collect(), seg: vec![], hdr: 0 });
             script.push(HOp::Ann { t: 1, ev: 1, left: 1, want: None, port: 60001, pid: 2, style: 0, seg: vec![], hdr: 0 });
@@ -971,6 +1002,7 @@ impl Harness for HttpSys {
                     let (props, checkid, sigid): (&[&str], &str, String) = match &o.req {
                         Req::Scr { ts, .. } if check == "one-reply-per-request" && 45 + 11 + 70 * ts.iter().collect::<BTreeSet<_>>().len().min(scn.max_scrape_torrents) + 2 > 4096 => (&["C18", "C16"], "reply-fits-buffer", "scrape-reply-exceeds-buffer".into()),
                         Req::Ann { limit, key, .. } if check == "one-reply-per-request" && 45 + 80 + limit * if key.0.is_ipv4() { 6 } else { 18 } > 4096 => (&["C18", "C16"], "reply-fits-buffer", "announce-reply-exceeds-buffer".into()),
+                        _ if check == "one-reply-per-request" => (&["C16", "C18"], "one-reply-per-request", "accepted-request-unanswered".into()),
                         _ => (&["C16"], check.as_str(), check.clone()),
                     };
                     for p in props {
